@@ -24,7 +24,7 @@ from . import parser_spec
 
 from functools import lru_cache
 from metomi.isodatetime.exceptions import (
-    ISO8601SyntaxError, TimePointDumperBoundsError)
+    ISO8601SyntaxError, StrftimeSyntaxError, TimePointDumperBoundsError)
 
 
 class TimePointDumper(object):
@@ -163,7 +163,11 @@ class TimePointDumper(object):
             if not (min_value <= value <= max_value):
                 raise TimePointDumperBoundsError(
                     "year", value, min_value, max_value)
-        return expression % property_map
+        try:
+            return expression % property_map
+        except (KeyError, TypeError, ValueError):
+            # A stray "%" that is neither ours nor a strftime directive
+            raise StrftimeSyntaxError(expression)
 
     @lru_cache(maxsize=100000)
     def _get_expression_and_properties(self, formatting_string):
